@@ -46,6 +46,8 @@ structure TblOK (t : Tbl) : Prop where
   hashesRequired : FileId.hashes ∈ t.required
   infraRequired : FileId.infra ∈ t.required
   tsExact : t.tsExact = true
+  /-- every preseed is a fresh draw (the stream is not restarted) -/
+  seedFresh : t.seedRestart = false
   /-- the hashed view determines every defining input -/
   viewInj : ∀ (k : Input) (a b : Nat), t.view k a = t.view k b → a = b
   freshOps : t.freshOps = safeIOps
@@ -60,7 +62,7 @@ def Tbl.okB (t : Tbl) : Bool :=
   && t.hashedFresh.all (fun p => t.compared.contains p)
   && t.compared.all (fun p => t.hashedFresh.contains p)
   && t.required.contains .count && t.required.contains .hashes && t.required.contains .infra
-  && t.tsExact && t.hashWholeFile && !t.vwKeysRemoved && !t.progKeysRemoved
+  && t.tsExact && !t.seedRestart && t.hashWholeFile && !t.vwKeysRemoved && !t.progKeysRemoved
   && decide (t.freshOps = safeIOps) && decide (t.regenOps = safeIOps)
   && decide (t.emisRegen = safePhases) && decide (t.emisExtend = safePhases)
 
@@ -70,8 +72,8 @@ theorem Input.mem_all (i : Input) : i ∈ Input.all := by
 theorem Tbl.ok_of_okB (t : Tbl) (h : t.okB = true) : TblOK t := by
   simp only [Tbl.okB, Bool.and_eq_true, decide_eq_true_eq, List.all_eq_true, List.any_eq_true,
     List.contains_iff_mem, beq_iff_eq] at h
-  obtain ⟨⟨⟨⟨⟨⟨⟨⟨⟨⟨⟨⟨⟨⟨⟨h1, h2⟩, h3⟩, h4⟩, h5⟩, h6⟩, h6a⟩, h6b⟩, h6c⟩, v1⟩, v2⟩, v3⟩, h7⟩, h8⟩, h9⟩, h10⟩ := h
-  refine ⟨h1, h2, ?_, h4, h5, h6, h6a, h6b, h6c, ?_, h7, h8, h9, h10⟩
+  obtain ⟨⟨⟨⟨⟨⟨⟨⟨⟨⟨⟨⟨⟨⟨⟨⟨h1, h2⟩, h3⟩, h4⟩, h5⟩, h6⟩, h6a⟩, h6b⟩, h6c⟩, v0⟩, v1⟩, v2⟩, v3⟩, h7⟩, h8⟩, h9⟩, h10⟩ := h
+  refine ⟨h1, h2, ?_, h4, h5, h6, h6a, h6b, h6c, by simpa using v0, ?_, h7, h8, h9, h10⟩
   rotate_left
   · intro k a b hab
     have v2' : t.vwKeysRemoved = false := by simpa using v2
@@ -396,7 +398,7 @@ theorem extend_spec (t : Tbl) (w : Bool) (d1 : Disk) (hi : Inv t w d1) (c n : Na
 
 /-- the folder after a completed run -/
 structure Valid (t : Tbl) (w : Bool) (vv : VV) (g : Gen) (n : Nat) (d : Disk) : Prop where
-  seeds : ∃ m, d.seeds = .ok m ∧ n ≤ m
+  seeds : ∃ m : List Draw, d.seeds = .ok m ∧ n ≤ m.length
   hashes : ∃ st, d.hashes = .ok st ∧ hashesMatch t st vv = true
   infra : d.infra = .ok g
   count : ∃ c, d.count = .ok c ∧ n ≤ c ∧ ∀ i, i < c → Slot w (d.emis i) g
@@ -414,7 +416,7 @@ def MidPost (t : Tbl) (w : Bool) (vv : VV) (n : Nat) (d1 : Disk) (l : List Step)
   mem.vv = vv
 
 theorem mid_spec (t : Tbl) (w : Bool) (ok : TblOK t) (vv : VV) (gid n : Nat) (force : Bool) (d : Disk)
-    (x : FileSt Nat) (hi : Inv t w d) (s2 : List Step) (mem : Gen) (hfe : Bool) (s3 : List Step)
+    (x : FileSt (List Draw)) (hi : Inv t w d) (s2 : List Step) (mem : Gen) (hfe : Bool) (s3 : List Step)
     (h2 : infraStage t vv gid force d = some (s2, mem, hfe))
     (h3 : emisStage t n hfe mem d = some s3) :
     MidPost t w vv n { d with seeds := x } (s2 ++ s3) mem := by
@@ -478,21 +480,28 @@ theorem mid_spec (t : Tbl) (w : Bool) (ok : TblOK t) (vv : VV) (gid n : Nat) (fo
         exact regen _ _ ok.sameHashed ok.regenOps h2.1.symm h2.2.1.symm h2.2.2.symm
     · simp at h2
 
-theorem seeds_spec (t : Tbl) (w : Bool) (n : Nat) (d : Disk) (s1 : List Step) (force : Bool)
-    (h : seedsStage n d = some (s1, force)) :
-    ∃ m, applyAll s1 d = { d with seeds := .ok m } ∧ n ≤ m ∧ ChainOk t w d s1 := by
+theorem newDraws_length (t : Tbl) (gid cnt k : Nat) : (newDraws t gid k cnt).length = cnt := by
+  induction cnt generalizing k with
+  | zero => rfl
+  | succ c ih => simp [newDraws, ih]
+
+theorem seeds_spec (t : Tbl) (w : Bool) (gid n : Nat) (d : Disk) (s1 : List Step) (force : Bool)
+    (h : seedsStage t gid n d = some (s1, force)) :
+    ∃ m : List Draw, applyAll s1 d = { d with seeds := .ok m } ∧ n ≤ m.length ∧ ChainOk t w d s1 := by
   unfold seedsStage at h
   split at h
   · simp at h
   · simp only [Option.some.injEq, Prod.mk.injEq] at h
     obtain ⟨rfl, _⟩ := h
-    exact ⟨n, rfl, Nat.le_refl _, trivial, trivial⟩
+    exact ⟨_, rfl, by simp [newDraws_length], trivial, trivial⟩
   · rename_i m hm
     simp only [Option.some.injEq, Prod.mk.injEq] at h
     obtain ⟨rfl, _⟩ := h
-    by_cases hmn : m < n
+    by_cases hmn : m.length < n
     · simp only [hmn, if_true]
-      exact ⟨n, rfl, Nat.le_refl _, trivial, trivial⟩
+      refine ⟨_, rfl, ?_, trivial, trivial⟩
+      simp only [List.length_append, newDraws_length]
+      omega
     · simp only [hmn, if_false]
       refine ⟨m, ?_, by omega, trivial⟩
       cases d
@@ -548,11 +557,11 @@ theorem plan_spec (t : Tbl) (w : Bool) (ok : TblOK t) (vv : VV) (gid n : Nat) (d
     ChainOk t w d (plan t vv gid n d).steps ∧
     ∀ g, (plan t vv gid n d).outcome = some g →
       Valid t w vv g n (applyAll (plan t vv gid n d).steps d) := by
-  cases h1 : seedsStage n d with
+  cases h1 : seedsStage t gid n d with
   | none => simp only [plan, h1]; exact ⟨trivial, by simp⟩
   | some r1 =>
     obtain ⟨s1, force⟩ := r1
-    obtain ⟨m, e1, hm, c1⟩ := seeds_spec t w n d s1 force h1
+    obtain ⟨m, e1, hm, c1⟩ := seeds_spec t w gid n d s1 force h1
     cases h2 : infraStage t vv gid force d with
     | none => simp only [plan, h1, h2]; exact ⟨c1, by simp⟩
     | some r2 =>
@@ -691,7 +700,7 @@ theorem emisLoop_touches (g : Gen) (cnt lo n0 : Nat) (h : n0 ≤ lo) :
 /-- steps of a run on a complete folder of `n0` simulations that keep it complete wherever the run
 is cut: no hash / infrastructure write, no removal, seed and count files only grow -/
 def Step.benign (n0 : Nat) : Step → Bool
-  | .wrSeeds m => decide (n0 ≤ m)
+  | .wrSeeds m => decide (n0 ≤ m.length)
   | .wrCount m => decide (n0 ≤ m)
   | .wrEmis _ _ => true
   | _ => false
@@ -718,7 +727,8 @@ theorem plan_of_valid (t : Tbl) (w : Bool) (ok : TblOK t) (vv : VV) (g : Gen) (n
     simp only [List.all_eq_true]
     intro f _
     cases f <;> simp [Disk.present, FileSt.present, hs, hh, hg, hc, hts]
-  have h1 : seedsStage n1 d = some (if m < n1 then [.wrSeeds n1] else [], false) := by
+  have h1 : seedsStage t gid n1 d =
+      some (if m.length < n1 then [.wrSeeds (m ++ newDraws t gid 0 (n1 - m.length))] else [], false) := by
     simp [seedsStage, hs]
   have h2 : infraStage t vv gid false d = some ([], g, true) := by
     simp [infraStage, hpres, hh, hmatch, hg]
@@ -731,7 +741,7 @@ theorem plan_of_valid (t : Tbl) (w : Bool) (ok : TblOK t) (vv : VV) (g : Gen) (n
   · intro s hs'
     simp only [List.mem_append] at hs'
     rcases hs' with hs' | hs'
-    · by_cases hmn : m < n1
+    · by_cases hmn : m.length < n1
       · simp only [hmn, if_true, List.mem_singleton] at hs'
         subst hs'
         rfl
@@ -746,10 +756,11 @@ theorem plan_of_valid (t : Tbl) (w : Bool) (ok : TblOK t) (vv : VV) (g : Gen) (n
   · intro hle s hs'
     simp only [List.mem_append] at hs'
     rcases hs' with hs' | hs'
-    · by_cases hmn : m < n1
+    · by_cases hmn : m.length < n1
       · simp only [hmn, if_true, List.mem_singleton] at hs'
         subst hs'
-        simpa [Step.benign] using hle
+        simp only [Step.benign, List.length_append, newDraws_length, decide_eq_true_eq]
+        omega
       · simp [hmn] at hs'
     · by_cases hcn : c < n1
       · simp only [hcn, if_true, ok.emisExtend, instPhases_safe, List.mem_append,
@@ -761,7 +772,7 @@ theorem plan_of_valid (t : Tbl) (w : Bool) (ok : TblOK t) (vv : VV) (g : Gen) (n
 
 /-- the non-emission part of `Valid` -/
 structure FieldsOK (t : Tbl) (vv : VV) (g : Gen) (n0 : Nat) (d : Disk) : Prop where
-  seeds : ∃ m, d.seeds = .ok m ∧ n0 ≤ m
+  seeds : ∃ m : List Draw, d.seeds = .ok m ∧ n0 ≤ m.length
   hashes : ∃ st, d.hashes = .ok st ∧ hashesMatch t st vv = true
   infra : d.infra = .ok g
   count : ∃ c, d.count = .ok c ∧ n0 ≤ c
@@ -794,6 +805,290 @@ theorem fields_of_valid (t : Tbl) (w : Bool) (vv : VV) (g : Gen) (n0 : Nat) (d :
     (hv : Valid t w vv g n0 d) : FieldsOK t vv g n0 d := by
   obtain ⟨f1, f2, f3, ⟨c, f4, f4', _⟩, f5, _⟩ := hv
   exact ⟨f1, f2, f3, ⟨c, f4, f4'⟩, f5⟩
+
+/-! ### the preseed stream -/
+
+def Step.seedsFree : Step → Bool
+  | .wrSeeds _ => false
+  | .rm .seeds => false
+  | _ => true
+
+theorem seedsFree_applyAll (l : List Step) (d : Disk) (h : ∀ s ∈ l, s.seedsFree = true) :
+    (applyAll l d).seeds = d.seeds := by
+  induction l generalizing d with
+  | nil => rfl
+  | cons s rest ih =>
+    rw [applyAll_cons, ih _ (fun x hx => h x (by simp [hx]))]
+    have := h s (by simp)
+    cases s with
+    | rm f => cases f <;> simp_all [Step.seedsFree, Step.apply, Disk.remove]
+    | _ => simp_all [Step.seedsFree, Step.apply, Disk.setEmis]
+
+theorem seedsFree_tear (s : Step) (d : Disk) (h : s.seedsFree = true) : (s.tear d).seeds = d.seeds := by
+  cases s <;> simp_all [Step.seedsFree, Step.tear, Disk.setEmis]
+
+theorem emisLoop_seedsFree (g : Gen) (cnt lo : Nat) : ∀ s ∈ emisLoop g lo cnt, s.seedsFree = true := by
+  induction cnt generalizing lo with
+  | zero => simp [emisLoop]
+  | succ k ih =>
+    intro s hs
+    simp only [emisLoop, List.mem_cons] at hs
+    rcases hs with rfl | hs
+    · rfl
+    · exact ih (lo + 1) s hs
+
+/-- a plan is the seed stage's (at most one) step followed by steps that leave the seed file alone -/
+theorem plan_shape (t : Tbl) (ok : TblOK t) (vv : VV) (gid n : Nat) (d : Disk) :
+    (seedsStage t gid n d = none ∧ (plan t vv gid n d).steps = []) ∨
+    ∃ s1 force r, seedsStage t gid n d = some (s1, force) ∧ (plan t vv gid n d).steps = s1 ++ r ∧
+      ∀ s ∈ r, s.seedsFree = true := by
+  cases h1 : seedsStage t gid n d with
+  | none => left; simp [plan, h1]
+  | some r1 =>
+    obtain ⟨s1, force⟩ := r1
+    right
+    have iops : ∀ (st : Store) (g : Gen), ∀ s ∈ instIOps safeIOps st g d, s.seedsFree = true := by
+      intro st g s hs
+      rw [instIOps_safe] at hs
+      by_cases hc : d.count.present = true <;> simp [hc] at hs <;> rcases hs with rfl | rfl | rfl <;> rfl
+    have phases : ∀ (g : Gen) (lo : Nat), ∀ s ∈ instPhases safePhases g lo n, s.seedsFree = true := by
+      intro g lo s hs
+      rw [instPhases_safe, List.mem_append] at hs
+      rcases hs with hs | hs
+      · exact emisLoop_seedsFree g _ lo s hs
+      · simp at hs; subst hs; rfl
+    have h2free : ∀ s2 mem hfe, infraStage t vv gid force d = some (s2, mem, hfe) →
+        ∀ s ∈ s2, s.seedsFree = true := by
+      intro s2 mem hfe h2
+      unfold infraStage at h2
+      rw [ok.freshOps, ok.regenOps] at h2
+      split at h2
+      · simp only [Option.some.injEq, Prod.mk.injEq] at h2
+        rw [← h2.1]; exact iops _ _
+      · split at h2
+        · split at h2
+          · split at h2
+            · simp only [Option.some.injEq, Prod.mk.injEq] at h2
+              rw [← h2.1]; simp
+            · simp at h2
+          · simp only [Option.some.injEq, Prod.mk.injEq] at h2
+            rw [← h2.1]; exact iops _ _
+        · simp at h2
+    have h3free : ∀ hfe mem s3, emisStage t n hfe mem d = some s3 → ∀ s ∈ s3, s.seedsFree = true := by
+      intro hfe mem s3 h3
+      unfold emisStage at h3
+      rw [ok.emisRegen, ok.emisExtend] at h3
+      split at h3
+      · split at h3
+        · rename_i c hc
+          simp only [Option.some.injEq] at h3
+          subst h3
+          by_cases hcn : c < n
+          · simp only [hcn, if_true]; exact phases _ _
+          · simp [hcn]
+        · simp at h3
+      · simp only [Option.some.injEq] at h3
+        subst h3
+        exact phases _ _
+    have h4free : ∀ s4, tsStage t vv d = some s4 → ∀ s ∈ s4, s.seedsFree = true := by
+      intro s4 h4
+      unfold tsStage at h4
+      split at h4
+      · simp at h4
+      · simp only [Option.some.injEq] at h4
+        subst h4
+        intro s hs
+        split at hs
+        · simp at hs
+        · simp at hs; subst hs; rfl
+      · simp only [Option.some.injEq] at h4
+        subst h4
+        intro s hs
+        simp at hs; subst hs; rfl
+    cases h2 : infraStage t vv gid force d with
+    | none => exact ⟨s1, force, [], rfl, by simp [plan, h1, h2], by simp⟩
+    | some r2 =>
+      obtain ⟨s2, mem, hfe⟩ := r2
+      cases h3 : emisStage t n hfe mem d with
+      | none =>
+        exact ⟨s1, force, s2, rfl, by simp [plan, h1, h2, h3], h2free s2 mem hfe h2⟩
+      | some s3 =>
+        cases h4 : tsStage t vv d with
+        | none =>
+          refine ⟨s1, force, s2 ++ s3, rfl, by simp [plan, h1, h2, h3, h4], ?_⟩
+          intro s hs
+          rcases List.mem_append.mp hs with hs | hs
+          · exact h2free s2 mem hfe h2 s hs
+          · exact h3free hfe mem s3 h3 s hs
+        | some s4 =>
+          refine ⟨s1, force, s2 ++ s3 ++ s4, rfl, by simp [plan, h1, h2, h3, h4], ?_⟩
+          intro s hs
+          rcases List.mem_append.mp hs with hs | hs
+          · rcases List.mem_append.mp hs with hs | hs
+            · exact h2free s2 mem hfe h2 s hs
+            · exact h3free hfe mem s3 h3 s hs
+          · exact h4free s4 h4 s hs
+
+/-- every stored preseed is a draw of an earlier run, and no draw is stored twice -/
+def SeedsFresh (s : St) : Prop :=
+  ∀ l, s.disk.seeds = .ok l → l.Nodup ∧ ∀ x ∈ l, x.1 < s.gid
+
+theorem newDraws_mem (t : Tbl) (hf : t.seedRestart = false) (gid cnt k : Nat) :
+    ∀ x ∈ newDraws t gid k cnt, x.1 = gid ∧ k ≤ x.2 := by
+  induction cnt generalizing k with
+  | zero => simp [newDraws]
+  | succ c ih =>
+    intro x hx
+    simp only [newDraws, hf, Bool.false_eq_true, if_false, List.mem_cons] at hx
+    rcases hx with rfl | hx
+    · exact ⟨rfl, Nat.le_refl _⟩
+    · have := ih (k + 1) x hx
+      exact ⟨this.1, by omega⟩
+
+theorem newDraws_nodup (t : Tbl) (hf : t.seedRestart = false) (gid cnt k : Nat) :
+    (newDraws t gid k cnt).Nodup := by
+  induction cnt generalizing k with
+  | zero => simp [newDraws]
+  | succ c ih =>
+    simp only [newDraws, hf, Bool.false_eq_true, if_false, List.nodup_cons]
+    refine ⟨?_, ih (k + 1)⟩
+    intro hm
+    have := (newDraws_mem t hf gid c (k + 1) _ hm).2
+    simp only at this
+    omega
+
+/-- what the seed stage writes keeps the stored preseeds as a prefix and appends draws of this run -/
+theorem seedsStage_fresh (t : Tbl) (hf : t.seedRestart = false) (s : St) (n : Nat) (hs : SeedsFresh s)
+    (s1 : List Step) (force : Bool) (h : seedsStage t s.gid n s.disk = some (s1, force)) :
+    s1 = [] ∨ ∃ l', s1 = [.wrSeeds l'] ∧ l'.Nodup ∧ (∀ x ∈ l', x.1 < s.gid + 1) ∧
+      (∀ l, s.disk.seeds = .ok l → ∃ add, l' = l ++ add ∧ ∀ x ∈ add, x ∉ l ∧ x.1 = s.gid) := by
+  unfold seedsStage at h
+  split at h
+  · simp at h
+  · rename_i habs
+    simp only [Option.some.injEq, Prod.mk.injEq] at h
+    right
+    refine ⟨_, h.1.symm, newDraws_nodup t hf _ _ _, ?_, ?_⟩
+    · intro x hx
+      have := (newDraws_mem t hf _ _ _ x hx).1
+      omega
+    · intro l hl
+      rw [habs] at hl
+      cases hl
+  · rename_i l hl
+    simp only [Option.some.injEq, Prod.mk.injEq] at h
+    obtain ⟨nd, lt⟩ := hs l hl
+    by_cases hln : l.length < n
+    · simp only [hln, if_true] at h
+      right
+      refine ⟨_, h.1.symm, ?_, ?_, ?_⟩
+      · rw [List.nodup_append]
+        refine ⟨nd, newDraws_nodup t hf _ _ _, ?_⟩
+        intro a ha b hb hab
+        have := (newDraws_mem t hf _ _ _ b hb).1
+        have := lt a ha
+        subst hab
+        omega
+      · intro x hx
+        rcases List.mem_append.mp hx with hx | hx
+        · have := lt x hx; omega
+        · have := (newDraws_mem t hf _ _ _ x hx).1; omega
+      · intro l2 hl2
+        rw [hl] at hl2
+        cases hl2
+        refine ⟨_, rfl, ?_⟩
+        intro x hx
+        have e := (newDraws_mem t hf _ _ _ x hx).1
+        refine ⟨?_, e⟩
+        intro hm
+        have := lt x hm
+        omega
+    · simp only [hln, if_false] at h
+      exact Or.inl h.1.symm
+
+theorem seedsFresh_exec (t : Tbl) (ok : TblOK t) (s : St) (op : Op) (hs : SeedsFresh s) :
+    SeedsFresh (exec t s op) := by
+  have weaken : ∀ (d' : Disk), (d'.seeds = s.disk.seeds ∨ d'.seeds = .absent ∨ d'.seeds = .torn ∨
+      ∃ l', d'.seeds = .ok l' ∧ l'.Nodup ∧ ∀ x ∈ l', x.1 < s.gid + 1) →
+      ∀ l, d'.seeds = .ok l → l.Nodup ∧ ∀ x ∈ l, x.1 < s.gid + 1 := by
+    intro d' hd l hl
+    rcases hd with e | e | e | ⟨l', e, nd, lt⟩
+    · rw [e] at hl
+      obtain ⟨a, b⟩ := hs l hl
+      exact ⟨a, fun x hx => by have := b x hx; omega⟩
+    · rw [e] at hl; cases hl
+    · rw [e] at hl; cases hl
+    · rw [e] at hl; cases hl; exact ⟨nd, lt⟩
+  have prefixes : ∀ (n k : Nat),
+      let p := plan t s.vv s.gid n s.disk
+      ((applyAll (p.steps.take k) s.disk).seeds = s.disk.seeds ∨
+        ∃ l', (applyAll (p.steps.take k) s.disk).seeds = .ok l' ∧ l'.Nodup ∧ ∀ x ∈ l', x.1 < s.gid + 1) ∧
+      ((tearAt p.steps k s.disk).seeds = s.disk.seeds ∨ (tearAt p.steps k s.disk).seeds = .torn ∨
+        ∃ l', (tearAt p.steps k s.disk).seeds = .ok l' ∧ l'.Nodup ∧ ∀ x ∈ l', x.1 < s.gid + 1) := by
+    intro n k
+    rcases plan_shape t ok s.vv s.gid n s.disk with ⟨_, e⟩ | ⟨s1, force, r, h1, e, hr⟩
+    · simp only [e, List.take_nil, applyAll_nil, tearAt, List.getElem?_nil, true_or, and_self]
+    · simp only [e]
+      have hrt : ∀ j, ∀ x ∈ r.take j, x.seedsFree = true := fun j x hx => hr x (List.mem_of_mem_take hx)
+      rcases seedsStage_fresh t ok.seedFresh s n hs s1 force h1 with rfl | ⟨l', rfl, nd, lt, _⟩
+      · simp only [List.nil_append]
+        refine ⟨Or.inl (seedsFree_applyAll _ _ (hrt k)), ?_⟩
+        unfold tearAt
+        cases hk : r[k]? with
+        | none => exact Or.inl (seedsFree_applyAll _ _ hr)
+        | some x =>
+          have hx : x.seedsFree = true := hr x (List.mem_of_getElem? hk)
+          left
+          rw [seedsFree_tear x _ hx]
+          exact seedsFree_applyAll _ _ (hrt k)
+      · cases k with
+        | zero =>
+          refine ⟨Or.inl rfl, Or.inr (Or.inl ?_)⟩
+          simp [tearAt, Step.tear]
+        | succ k =>
+          have e1 : ([Step.wrSeeds l'] ++ r).take (k + 1) = Step.wrSeeds l' :: r.take k := by simp
+          have base : (applyAll (Step.wrSeeds l' :: r.take k) s.disk).seeds = .ok l' := by
+            rw [applyAll_cons, seedsFree_applyAll _ _ (hrt k)]
+            rfl
+          refine ⟨Or.inr ⟨l', by rw [e1]; exact base, nd, lt⟩, Or.inr (Or.inr ⟨l', ?_, nd, lt⟩)⟩
+          unfold tearAt
+          have eg : ([Step.wrSeeds l'] ++ r)[k + 1]? = r[k]? := by simp
+          rw [eg]
+          cases hk : r[k]? with
+          | none =>
+            show (applyAll (Step.wrSeeds l' :: r) s.disk).seeds = _
+            rw [applyAll_cons, seedsFree_applyAll _ _ hr]
+            rfl
+          | some x =>
+            have hx : x.seedsFree = true := hr x (List.mem_of_getElem? hk)
+            show (x.tear (applyAll (([Step.wrSeeds l'] ++ r).take (k + 1)) s.disk)).seeds = _
+            rw [seedsFree_tear x _ hx, e1]
+            exact base
+  cases op with
+  | edit k v => exact hs
+  | del f =>
+    intro l hl
+    cases f with
+    | seeds => simp [exec, Disk.remove] at hl
+    | _ => exact hs l hl
+  | delEmis i => exact hs
+  | run n =>
+    have := (prefixes n (plan t s.vv s.gid n s.disk).steps.length).1
+    rw [List.take_length] at this
+    exact weaken _ (by rcases this with e | e; exact Or.inl e; exact Or.inr (Or.inr (Or.inr e)))
+  | crash n k =>
+    have := (prefixes n k).1
+    exact weaken _ (by rcases this with e | e; exact Or.inl e; exact Or.inr (Or.inr (Or.inr e)))
+  | tear n k =>
+    have := (prefixes n k).2
+    exact weaken _ (by rcases this with e | e | e; exact Or.inl e; exact Or.inr (Or.inr (Or.inl e));
+                       exact Or.inr (Or.inr (Or.inr e)))
+
+theorem seedsFresh_execAll (t : Tbl) (ok : TblOK t) (h : List Op) (s : St) (hs : SeedsFresh s) :
+    SeedsFresh (execAll t s h) := by
+  induction h generalizing s with
+  | nil => exact hs
+  | cons op rest ih => exact ih _ (seedsFresh_exec t ok s op hs)
 
 /-! ### progress -/
 
